@@ -152,7 +152,9 @@ def evaluate(ck, pidnum, cases, tag):
 
 def run_exec(ck, pidnum, bias, quick_n=500, thorough_n=12000, tiny=None):
     pid = ck.pid
-    ck.build_proofs()
+    # the tie lemma between the hand-written submit_attempts and the text generated from
+    # _StepRecord.execute/restart/_execute/mark_* is an obligation of every execution property
+    ck.build_proofs(extra_targets=["theories/Exec/ExecGen2Proofs.vo"])
     from translate import regen
     ck.notes["tcode"] = {k: (v.get("ok"), v.get("not_translatable")) for k, v in regen.status().items()}
     rng = random.Random(ck.seed * 7919 + pidnum)
